@@ -1208,28 +1208,26 @@ class RDD:
         ...
         ValueError: Can not reduce() empty RDD
         """
-        _empty = object()
+        def reduce_partition(values):
+            # an empty partition yields an empty list: a sentinel object would
+            # lose its identity on the way back from a worker process
+            values = iter(values)
+            try:
+                first = next(values)
+            except StopIteration:
+                return []
+            return [functools.reduce(f, values, first)]
 
-        def f_without_empty(a, b):
-            if a is _empty:
-                return b
-            if b is _empty:
-                return a
-            return f(a, b)
-
-        def reducer(values):
-            return functools.reduce(f_without_empty, values, _empty)
-
-        result = self.context.runJob(
+        partial_results = self.context.runJob(
             self,
-            lambda tc, x: reducer(x),
-            resultHandler=reducer
+            lambda tc, x: reduce_partition(x),
+            resultHandler=lambda l: [v for partial in l for v in partial]
         )
 
-        if result is _empty:
+        if not partial_results:
             raise ValueError("Can not reduce() empty RDD")
 
-        return result
+        return functools.reduce(f, partial_results)
 
     def reduceByKey(self, f, numPartitions=None):
         """reduce by key
